@@ -94,10 +94,12 @@ class G:
             self.mustnot += 1
             return ast.Call(func=N(name), args=[], keywords=[ast.keyword(arg="seq", value=self.seq(d - 1))])
         if kind < 0.93:
-            self.unjudged = True
-            return ast.Call(func=N(name), args=[self.seq(d - 1)], keywords=[ast.keyword(arg="key", value=C(1))])
+            # one positional argument plus keywords: another argument count
+            self.mustnot += 1
+            return ast.Call(func=N(name), args=[self.seq(d - 1)], keywords=[ast.keyword(arg=r.choice(["key", "start", "default"]), value=self.num(d - 1))] + ([ast.keyword(arg=None, value=N("kw"))] if r.random() < 0.3 else []))
         if kind < 0.96:
-            self.unjudged = True
+            # a lone star-unpacking is not "one sequence"
+            self.mustnot += 1
             return ast.Call(func=N(name), args=[ast.Starred(value=self.seq(d - 1), ctx=ast.Load())], keywords=[])
         self.mustnot += 1
         return ast.Call(func=attr(N("np"), name), args=[self.seq(d - 1)], keywords=[])  # np.Sum(x)
@@ -204,7 +206,7 @@ def judge_folds(ctx):
 DIRECTED = [
     "Sum(a, b)", "Sum()", "Max()", "Min()", "len()", "Count()", "Max(a, b, c)", "x.Sum()", "x.len()", "f(Sum)", "Sum",
     "len(Select(jets, lambda j: Count(j.trks)))", "Select(s, lambda Sum: Sum(x))", "Sum(x, 0, lambda a, b: a)", "Aggregate(jets, 0, lambda acc, v: acc + len(v))", "Aggregate(jets, 0, lambda acc, v: acc + Sum(v.pts))", "Aggregate(Select(s, lambda j: Count(j.t)), 1, lambda acc, v: acc if acc > Max(v) else Min(v))", "Sum([Count(t) for t in ts])", "Max([Count(t), len(u)])", "Sum(a if Count(b) > 5 else b)", "Min(e.jets[Count(e.mu)].pt)", "Sum(x + [len(y)])", "Sum(len(t) for t in ts)",
-    "Count(x, y)", "len(x, y)", "Min(Max(Sum(x)))", "[Sum(x) for x in y]", "np.Sum(x)", "Sum(seq=x)",
+    "Count(x, y)", "len(x, y)", "Sum(a, start=5)", "Max(a, default=len(b))", "Sum(*xs)", "Select(ds, lambda e: Sum(e.jets, start=e.offset))", "Count(a, **kw)", "Min(Max(Sum(x)))", "[Sum(x) for x in y]", "np.Sum(x)", "Sum(seq=x)",
 ]
 
 
